@@ -22,15 +22,15 @@ import (
 // other characters it counts absent -- and the decisions of each path are
 // collected as linear facts:
 //
-//   P13a  for every line with more closers than openers (B1 > A1): on every
-//         path the facts do not refute, the pending input is handed to
-//         processInput in that round. A stray closer can never be balanced by
-//         later lines; a driver that keeps waiting swallows the rest of the
-//         session without a word.
-//   P13b  for every such line followed by a line that opens a block (A2 > B2):
-//         on every feasible path the second line is not submitted in its
-//         round: the surplus of the refused statement does not count against
-//         the statements after it.
+//	P13a  for every line with more closers than openers (B1 > A1): on every
+//	      path the facts do not refute, the pending input is handed to
+//	      processInput in that round. A stray closer can never be balanced by
+//	      later lines; a driver that keeps waiting swallows the rest of the
+//	      session without a word.
+//	P13b  for every such line followed by a line that opens a block (A2 > B2):
+//	      on every feasible path the second line is not submitted in its
+//	      round: the surplus of the refused statement does not count against
+//	      the statements after it.
 //
 // A driver that does not count with strings.Count (its own scan of the bytes)
 // is judged on the representative lines "}" / "{" and "]" / "[" instead,
